@@ -287,3 +287,33 @@ pub fn w20_user_repr_on_unsized_flat() {}
 /// struct OverUnsized { a: u8, b: FlatVec<u8, u8> }
 /// ```
 pub fn t20_user_repr_on_unsized_flat() {}
+
+/// C04 (configurations): `#[flat]` is an attribute macro and sees the item before `cfg` stripping; a field or variant disabled by
+/// `#[cfg(..)]` would still be counted in every type list, offset and tag value the macro computes (validator at the wrong offsets,
+/// a tag of no existing variant accepted). Conditional fields / variants must not compile. (Macro error: no error code.)
+/// ```compile_fail
+/// use flatty::flat;
+/// #[flat]
+/// struct SizedCfg { a: u8, #[cfg(any())] b: u64, c: u8 }
+/// ```
+pub fn w21_cfg_field_on_flat() {}
+/// ```no_run
+/// use flatty::flat;
+/// #[flat]
+/// struct SizedCfg { a: u8, b: u64, c: u8 }
+/// ```
+pub fn t21_cfg_field_on_flat() {}
+
+/// Same for an enum variant.
+/// ```compile_fail
+/// use flatty::flat;
+/// #[flat]
+/// enum EnumCfg { A, #[cfg(any())] B(u8), C(u8) }
+/// ```
+pub fn w22_cfg_variant_on_flat() {}
+/// ```no_run
+/// use flatty::flat;
+/// #[flat]
+/// enum EnumCfg { A, B(u8), C(u8) }
+/// ```
+pub fn t22_cfg_variant_on_flat() {}
